@@ -98,6 +98,10 @@ impl ParserOfModuleLocals {
 }
 
 impl Visit for ParserOfModuleLocals {
+    // declarations inside a namespace / module block or inside a statement block (function bodies) are not
+    // locals of the file
+    fn visit_ts_module_decl(&mut self, _n: &swc_ecma_ast::TsModuleDecl) {}
+    fn visit_block_stmt(&mut self, _n: &swc_ecma_ast::BlockStmt) {}
     fn visit_ts_type_alias_decl(&mut self, n: &TsTypeAliasDecl) {
         self.handle_type_alias(n);
     }
